@@ -4,6 +4,7 @@ package interpreter
 
 import (
 	"context"
+	"errors"
 
 	"github.com/tetratelabs/wazero/api"
 	"github.com/tetratelabs/wazero/experimental"
@@ -61,3 +62,5 @@ func (w *verifWorld) hostModule(ctx context.Context, hosts []verifHost, listener
 func (w *verifWorld) guest(ctx context.Context, m *verifModule, name string, listeners []experimental.FunctionListener, ensureTermination bool) (*verifInst, error) {
 	return verifInstantiate(ctx, m.encode(), name, w.store, w.eng, listeners, ensureTermination)
 }
+
+func errorsIs(err, target error) bool { return errors.Is(err, target) }
